@@ -8,7 +8,7 @@
 //   PDU  ::= (cr V SESS) | (p4 V FLAGS LEN ML x<8hex> ASN) | (p6 V FLAGS LEN ML x<32hex> ASN)
 //          | (eod V SESS SERIAL) | (notify V SESS SERIAL) | (creset V) | (err V CODE x<body>)
 //          | (raw V TYPE SESS x<body>) | (junk x<bytes>)
-//          | (case-tcp-reset N)
+//          | (case-tcp-reset N) | (case-tcp-reconnect N)
 //   STEP ::= (start SID) | (send SID N) | (sendq SID N) | (soft SID) | (wfail SID)
 //          | (end SID eof|cancel) | (snap)
 //          sendq = queue bytes without running the client (must be followed by (end SID eof));
@@ -40,6 +40,9 @@ use crate::table_manager::TableManager;
 
 #[path = "/verif/harness/daemon/rpki_c12.rs"]
 mod c12;
+// C03 (b-wire): hostile RTR byte streams through the same real client loop
+#[path = "/verif/harness/daemon/rpki_c03.rs"]
+mod c03;
 
 struct Flag(AtomicBool);
 impl Wake for Flag {
@@ -297,6 +300,15 @@ fn run_case(line: &str) -> String {
         }
         return match u(&a[0], 64) {
             Some(n) => run_tcp(n),
+            None => bad(),
+        };
+    }
+    if let Some(a) = t.tagged("case-tcp-reconnect") {
+        if a.len() != 1 {
+            return bad();
+        }
+        return match u(&a[0], 64) {
+            Some(n) => run_tcp_reconnect(n),
             None => bad(),
         };
     }
@@ -611,6 +623,109 @@ fn run_tcp_reset(n: u64) -> String {
     Term::list(res).to_string()
 }
 
+/// The REAL reconnect loop of `try_connect` under tokio's paused clock: the cache closes the
+/// connection (the VRPs must go), the client waits its 10 s and connects again with the same
+/// RpkiState, starting over with a Reset Query; then the cache is gone altogether (connect fails,
+/// retried every 10 s) until the client is cancelled.
+fn run_tcp_reconnect(n: u64) -> String {
+    let mut res = vec![Term::atom("tcp-reconnect")];
+    for _ in 0..n {
+        let rt = tokio::runtime::Builder::new_current_thread()
+            .enable_all()
+            .start_paused(true)
+            .build()
+            .unwrap();
+        let r = rt.block_on(async {
+            use tokio::time::{sleep, Duration, Instant};
+            // a connection on which the client really talks (a connect attempt that timed out is closed at once)
+            async fn accept_live(l: &tokio::net::TcpListener) -> Option<(tokio::net::TcpStream, [u8; 8])> {
+                for _ in 0..50 {
+                    let (mut s, _) = l.accept().await.ok()?;
+                    let mut q = [0u8; 8];
+                    if s.read_exact(&mut q).await.is_ok() {
+                        return Some((s, q));
+                    }
+                }
+                None
+            }
+            async fn until(tables: &TableHandle, want: usize) -> bool {
+                for _ in 0..200_000 {
+                    if tables.collect_roa(packet::Family::IPV4).len() == want {
+                        return true;
+                    }
+                    std::thread::sleep(std::time::Duration::from_micros(20));
+                    tokio::task::yield_now().await;
+                }
+                false
+            }
+            let listener = tokio::net::TcpListener::bind("127.0.0.1:0").await.ok()?;
+            let addr = listener.local_addr().ok()?;
+            let tables: TableHandle = Arc::new(TableManager::new(1));
+            let state = Arc::new(RpkiState::default());
+            let cancel = CancellationToken::new();
+            RpkiClient::try_connect(addr, cancel.clone(), Arc::new(Notify::new()), state.clone(), tables.clone());
+            let (mut sock1, q1) = accept_live(&listener).await?;
+            if q1 != [1, 2, 0, 0, 0, 0, 0, 8] {
+                return Some("first-query-not-reset");
+            }
+            let mut bytes = Vec::new();
+            for p in ["(cr 1 7)", "(p4 1 1 8 24 x0a000000 65001)", "(p4 1 1 16 24 x0a010000 65002)", "(eod 1 7 5)"] {
+                encode_pdu(&Term::parse(p)?, &mut bytes)?;
+            }
+            sock1.write_all(&bytes).await.ok()?;
+            if !until(&tables, 2).await {
+                return Some("not-installed");
+            }
+            if !state.up.load(Ordering::Relaxed) {
+                return Some("not-up");
+            }
+            // the cache closes the connection
+            let t0 = Instant::now();
+            drop(sock1);
+            if !until(&tables, 0).await {
+                return Some("stale-after-close");
+            }
+            if state.up.load(Ordering::Relaxed) {
+                return Some("still-up");
+            }
+            let (mut sock2, q2) = accept_live(&listener).await?;
+            if Instant::now().duration_since(t0) < Duration::from_secs(10) {
+                return Some("reconnected-too-early");
+            }
+            if q2 != [1, 2, 0, 0, 0, 0, 0, 8] {
+                return Some("reconnect-query-not-reset");
+            }
+            let mut bytes = Vec::new();
+            for p in ["(cr 1 8)", "(p4 1 1 24 24 x0a010100 65003)", "(eod 1 8 9)"] {
+                encode_pdu(&Term::parse(p)?, &mut bytes)?;
+            }
+            sock2.write_all(&bytes).await.ok()?;
+            if !until(&tables, 1).await {
+                return Some("not-installed-after-reconnect");
+            }
+            if state.serial.load(Ordering::Relaxed) != 9 || state.session_id.load(Ordering::Relaxed) != 8 {
+                return Some("state-not-updated");
+            }
+            // the cache disappears: the listener is closed, then the connection
+            drop(listener);
+            drop(sock2);
+            if !until(&tables, 0).await {
+                return Some("stale-after-second-close");
+            }
+            // several failed connection attempts later the client is removed
+            sleep(Duration::from_secs(35)).await;
+            cancel.cancel();
+            sleep(Duration::from_secs(30)).await;
+            if !tables.collect_roa(packet::Family::IPV4).is_empty() || state.up.load(Ordering::Relaxed) {
+                return Some("stale-at-end");
+            }
+            Some("ok")
+        });
+        res.push(Term::atom(r.unwrap_or("io-failed")));
+    }
+    Term::list(res).to_string()
+}
+
 #[test]
 fn verif_main() {
     let (Ok(prop), Ok(inp), Ok(out)) = (
@@ -628,6 +743,7 @@ fn verif_main() {
             let l = l.to_string();
             std::panic::catch_unwind(move || run_case(&l)).unwrap_or_else(|_| "(panic)".into())
         }),
+        "C03" => sexp::run_lines(&inp, &out, |l| c03::run_case(l)),
         "C12" => sexp::run_lines(&inp, &out, |l| {
             let l = l.to_string();
             std::panic::catch_unwind(move || c12::run_case(&l)).unwrap_or_else(|_| "(panic)".into())
